@@ -11,7 +11,7 @@ use std::time::{Duration, Instant};
 use tokio::io::{AsyncReadExt, AsyncWriteExt};
 use tokio::net::{TcpStream, UdpSocket};
 
-const REPLY_WAIT: Duration = Duration::from_millis(2500);
+const REPLY_WAIT: Duration = Duration::from_millis(4000);
 
 #[derive(Clone, Debug, PartialEq, Eq)]
 pub struct UdpScn {
